@@ -38,6 +38,7 @@ JSVal = Ty("JSVal")      # any JS value (is_js_value)
 JSPrim = Ty("JSPrim")    # JS primitive
 JSArgs = Ty("JSArgs")    # tuple of JS values, any length
 PyVal = Ty("PyVal")      # any Val (incl. None / host transients)
+ValList = Ty("ValList")  # a list object holding JS values
 
 
 def Obj(cls):
@@ -75,7 +76,8 @@ def opcode(name):
 class Contract:
     def __init__(self, fn, id, prop, target, env=(), native=None, summaries=None, inline=(), grid=None,
                  bounded_only=False, loop_unroll=0, note="", timeout_ms=10000, cover=True, max_paths=4000,
-                 invariants=None, field_types=None, canary=False, expect_refuted=None, self_cls=None, prim_args=True, bind=None):
+                 invariants=None, field_types=None, canary=False, expect_refuted=None, self_cls=None, prim_args=True, bind=None, quick=True):
+        self.quick = quick
         self.prim_args = prim_args
         self.bind = bind or {}
         self.fn, self.id, self.prop, self.target = fn, id, prop, target
